@@ -131,6 +131,7 @@ func cmdCheck(args []string) int {
 	var samples []any
 	violations := 0
 	var violationLines []string
+	skippedAfterViolation := false
 	inconclusive := false
 	vacuous := false
 	tracesValidated := 0
@@ -239,6 +240,7 @@ func cmdCheck(args []string) int {
 					what = c.Kind + ": " + truncate(c.Msg, 120)
 				}
 				violationLines = append(violationLines, fmt.Sprintf("VIOLATION property=%s replay=%s", ps.ID, p))
+				fmt.Println(violationLines[len(violationLines)-1])
 				fmt.Fprintf(os.Stderr, "confirmed: %s in %s (%s) native=%s %s\n", what, hs.Func, c.Pos, ro.Outcome, truncate(ro.Detail, 200))
 				samples = append(samples, map[string]any{"kind": "violation", "harness": hs.Func, "what": what, "nd": c.ND, "replay": p})
 			} else {
@@ -277,6 +279,7 @@ func cmdCheck(args []string) int {
 				if err == nil {
 					violations++
 					violationLines = append(violationLines, fmt.Sprintf("VIOLATION property=%s replay=%s", ps.ID, rp))
+					fmt.Println(violationLines[len(violationLines)-1])
 					fmt.Fprintf(os.Stderr, "confirmed (native only; the engine's boundary assumptions hid it): %s in %s %s\n", ro.Outcome, hs.Func, truncate(ro.Detail, 200))
 					samples = append(samples, map[string]any{"kind": "violation (native only)", "harness": hs.Func, "what": ro.Outcome, "nd": s.ND, "replay": rp})
 				}
@@ -291,6 +294,13 @@ func cmdCheck(args []string) int {
 		}
 		hev = append(hev, he)
 		collectFuncs(sh, funcsEncoded)
+		if violations > 0 {
+			// the property is violated: the remaining harnesses would only
+			// add more witnesses (and, on a broken tree, may run for long)
+			skippedAfterViolation = true
+			dumpBlocks(sh, ps.ID+"-"+hs.Func)
+			break
+		}
 		dumpBlocks(sh, ps.ID+"-"+hs.Func)
 	}
 
@@ -318,9 +328,7 @@ func cmdCheck(args []string) int {
 		}
 	}
 
-	for _, l := range violationLines {
-		fmt.Println(l)
-	}
+	// (VIOLATION lines were printed as soon as each was confirmed)
 
 	var fe []string
 	for f, c := range funcsEncoded {
@@ -339,23 +347,24 @@ func cmdCheck(args []string) int {
 		"violations":  violations,
 		"assumptions": ps.Assume,
 		"coverage": map[string]any{
-			"states":                        max1(totalStates),
-			"transitions":                   max1(totalTransitions),
-			"traces_validated_against_impl": tracesValidated,
-			"samples":                       samples,
-			"obligations":                   totalAsserts,
-			"discharged":                    totalDischarged,
-			"evaluations":                   max1(totalStates),
-			"distinct_nontrivial":           distinct,
-			"rule":                          "states = feasible terminal paths of the harness (distinct decision vectors; each stands for every value of the symbolic leaves satisfying its path condition); transitions = branch decisions on symbolic data where the solver found both sides feasible; obligations = assertion queries PC ∧ ¬assert, discharged = answered unsat (or concretely true)",
-			"exhaustive":                    !inconclusive,
-			"harnesses":                     hev,
-			"functions_encoded":             fe,
-			"outside_the_bound":             ps.Outside,
-			"trace_mismatches":              traceMismatch,
-			"engine_native_discrepancies":   discrepancies,
-			"known_findings_reproduced":     keys(knownHit),
-			"explanation":                   "bounded symbolic execution of the real SSA of /repo (regenerated this run); every branch on symbolic data and every assertion decided by z3; candidates reported only after native replay",
+			"states":                            max1(totalStates),
+			"transitions":                       max1(totalTransitions),
+			"traces_validated_against_impl":     tracesValidated,
+			"samples":                           samples,
+			"obligations":                       totalAsserts,
+			"discharged":                        totalDischarged,
+			"evaluations":                       max1(totalStates),
+			"distinct_nontrivial":               distinct,
+			"rule":                              "states = feasible terminal paths of the harness (distinct decision vectors; each stands for every value of the symbolic leaves satisfying its path condition); transitions = branch decisions on symbolic data where the solver found both sides feasible; obligations = assertion queries PC ∧ ¬assert, discharged = answered unsat (or concretely true)",
+			"exhaustive":                        !inconclusive && !skippedAfterViolation,
+			"harnesses_skipped_after_violation": skippedAfterViolation,
+			"harnesses":                         hev,
+			"functions_encoded":                 fe,
+			"outside_the_bound":                 ps.Outside,
+			"trace_mismatches":                  traceMismatch,
+			"engine_native_discrepancies":       discrepancies,
+			"known_findings_reproduced":         keys(knownHit),
+			"explanation":                       "bounded symbolic execution of the real SSA of /repo (regenerated this run); every branch on symbolic data and every assertion decided by z3; candidates reported only after native replay",
 		},
 	}
 	// evidence describes /repo; a run against another tree (BKLSYM_REPO, used
